@@ -7,6 +7,8 @@ import (
 	"github.com/orcaman/concurrent-map"
 	"massnet.org/mass/poc/engine"
 	"massnet.org/mass/poc/engine/massdb"
+	"sync"
+	"sync/atomic"
 )
 
 type WorkSpace struct {
@@ -19,6 +21,9 @@ type WorkSpace struct {
 	// requests of this space are cancelled by stop/remove/delete; a queued request
 	// remembers the epoch it was issued in and is dropped by the plotter if it is stale.
 	reqEpoch uint64
+	// plotMu serialises starting and stopping the plot of this space, so that a stop
+	// cannot slip in between the plotter's decision to plot and the start of the plot
+	plotMu sync.Mutex
 }
 
 // NewWorkSpace loads MassDB from given rootDir with PubKey&BitLength,
@@ -97,8 +102,23 @@ func (ws *WorkSpace) Plot() error {
 	return <-result
 }
 
+// plotIfCurrent plots the space (and waits for the plot to end) unless the request it
+// belongs to has been cancelled by a stop/remove/delete in the meantime.
+func (ws *WorkSpace) plotIfCurrent(epoch uint64) error {
+	ws.plotMu.Lock()
+	if atomic.LoadUint64(&ws.reqEpoch) != epoch {
+		ws.plotMu.Unlock()
+		return nil
+	}
+	result := ws.db.Plot()
+	ws.plotMu.Unlock()
+	return <-result
+}
+
 func (ws *WorkSpace) StopPlot() error {
+	ws.plotMu.Lock()
 	result := ws.db.StopPlot()
+	ws.plotMu.Unlock()
 	return <-result
 }
 
